@@ -30,6 +30,13 @@ CLAIMED = {
         "DESIGN 9.6",
         "L-lim and dominated convergence are textbook lemmas (stated, not machine-checked); native replay at Q2/m2 = 1e8.",
     ),
+    "C19": (
+        "proof",
+        "PARTIAL, scope stated. The property has two halves. (1) 'x on a grid node = infinitesimally displaced x': a corollary of contracts within reach, discharged here -- Runner.__init__ builds InterpolatorDispatcher(XGrid(card grid, card log flag), card degree) and hands the same object to every consumer (3 grids x degree 1-4 x log/linear); the C01 contracts the statement rests on are re-discharged (conv.convolution equals the spec integral for EVERY x, the paths where x sits exactly on an area border included; the quadrature is split at every area border; convolve_vector / convolve_operator structure); continuity of the spec integral then needs continuous basis functions (A-eko) -- bounded stand-in: eko's real evaluate_x / log_evaluate_x executed symbolically for every x on six grids (partition of unity by z3, continuity at area borders). (2) 'two adequate grids agree / convergence under refinement' is approximation theory about eko's polynomials and scipy's quadrature: NO contract decides it; only a BOUNDED stand-in (real LO+NLO runs on 15/30/60 nodes and degree 2 vs 4 with a smooth toy PDF; node vs 1e-9-displaced x on a real run), never counted as discharged.",
+        "contract-based deductive verification for the wiring and the every-x convolution contracts (corollary: node continuity); bounded real runs as labelled stand-in for convergence",
+        "DESIGN 9.9",
+        "half (2) is not decided by contracts; A-eko only bounded in the grid.",
+    ),
     "C04": (
         "proof",
         "NLO closed forms: the real NLO quark and gluon kernels of F2, FL, F3, g1 (through the real NC/CC classes, nf 3..6) are identical, as elements of Q(z, ln z, ln(1-z)) with z3-justified log expansion, to the published closed forms (regular part, plus distributions, delta coefficient) for all z in (0,1). Sum rules: the first moment int_0^1 reg + loc(0+) of the real non-singlet kernels (Adler: F2 nu-nubar at orders 1-3; GLS/Bjorken: F3 and g1 at the available orders, nf 3..6) is computed by exact term-wise reduction of the kernel's symbolic normal form to a table of definite integrals and equals the analytic value (exactly at NLO, within 1e-4 of the cancellation scale for the fitted parametrisations).",
@@ -155,7 +162,6 @@ CLAIMED = {
 }
 
 NOT_APPLICABLE = {
-    "C19": "convergence under grid refinement / continuity at nodes is approximation theory about eko's interpolation polynomials and scipy quadrature, both outside /repo and outside what a contract can state. See DESIGN 5.",
 }
 
 NOT_YET = "contracts for this property are designed (DESIGN 4) but the check is not built yet in this revision; not claimed"
